@@ -73,10 +73,11 @@ def prop(case, rec):
     for p, c in case['entries']:
         pws += [p] * c
     path = os.path.join(_dir(), 'train.txt')
-    trainer.write_training_file(path, pws, enc)
+    pc = trainer.write_list(path, case['entries'], enc, case.get('spelling', 'plain'))
+    rec.cls('list_spelling_' + case.get('spelling', 'plain'))
     out = os.path.join(_dir(), 'R')
     r = guard(case, trainer.train, path, out, encoding=enc, coverage=case['coverage'], ngram=case['ngram'],
-              alphabet_size=case['alphabet_size'])
+              alphabet_size=case['alphabet_size'], prefixcount=pc)
     if not r.ok:
         if r.error is not None and not isinstance(r.error, ZeroDivisionError):
             raise Violation('crash:' + type(r.error).__name__, f'run_trainer raised {r.error!r}', case)
@@ -164,7 +165,8 @@ def cases(draw):
         base += [['\u043f\u0430\u0440\u043e\u043b\u044c1', 2]]
     entries += [e for e in base if e[0] not in seen]
     return {'entries': entries, 'encoding': enc, 'coverage': draw(st.sampled_from([0.6, 0.3, 0.9, 1, 0.01])),
-            'ngram': draw(st.sampled_from([2, 3, 4, 5])), 'alphabet_size': draw(st.sampled_from([100, 30, 10]))}
+            'ngram': draw(st.sampled_from([2, 3, 4, 5])), 'alphabet_size': draw(st.sampled_from([100, 30, 10])),
+            'spelling': draw(st.sampled_from(trainer.SPELLINGS))}
 
 
 def run_main(rec, seed, shard, nshards, tier):
